@@ -207,3 +207,76 @@ def model_floats(env):
         except Exception:
             out[k] = v
     return out
+
+
+# ------------------------------------------------------------------------------------------------------------------
+# CPython cross-check of the encoding: the terms the executor derived from the real source are evaluated at concrete
+# points and compared with what the real method returns there (a soundness guard on the executor itself: a mismatch
+# is an ENGINE error, never a property violation)
+# ------------------------------------------------------------------------------------------------------------------
+
+def crosscheck(chk, fam, method, res, args='X', n_points=24, tag=None):
+    import random
+    import warnings
+    import mpmath
+    import numpy as np
+    warnings.simplefilter('ignore')
+    import copulas.bivariate as cb
+    rnd = random.Random(1000 + (chk.seed or 0))
+    lo, hi = FAMILIES[fam]['box']
+    rets = [r for r in res if r.outcome == 'return']
+    if not rets:
+        return
+    checked, skipped = 0, 0
+    worst = 0.0
+    for k in range(n_points):
+        th = float(lo) + (float(hi) - float(lo)) * rnd.random()
+        if fam == 'frank' and abs(th) < 0.05:
+            th = 0.5
+        if fam == 'gumbel' and k % 6 == 0:
+            th = 1.0
+        u, v = 0.02 + 0.96 * rnd.random(), 0.02 + 0.96 * rnd.random()
+        env = {'theta': Fraction(th), 'u@i': Fraction(u), 'v@i': Fraction(v), 'n': 1}
+        pin = [ir.eq(TH, ir.const(Fraction(th))), ir.eq(U, ir.const(Fraction(u))), ir.eq(V, ir.const(Fraction(v))), ir.eq(N, 1)]
+        cands = []
+        for r in rets:
+            sat, _m = smt.satisfiable(list(r.pc) + pin, timeout_ms=3000)
+            if sat is not False:
+                try:
+                    old = mpmath.mp.dps
+                    mpmath.mp.dps = 40
+                    try:
+                        cands.append(float(ir.evaluate(lane_term(r.value), env)))
+                    finally:
+                        mpmath.mp.dps = old
+                except Exception:
+                    pass
+        try:
+            m = getattr(cb, FAMILIES[fam]['native'])()
+            m.theta = th
+            m.tau = 0.3
+            if args == 'X':
+                got = getattr(m, method)(np.array([[u, v]]))
+            elif args == 'yV':
+                got = getattr(m, method)(np.array([u]), np.array([v]))
+            else:
+                got = getattr(m, method)(np.array([u]))
+            got = float(np.ravel(got)[0])
+        except Exception:
+            skipped += 1
+            continue
+        if not cands or got != got:
+            skipped += 1
+            continue
+        err = min(abs(c - got) / max(1.0, abs(got)) for c in cands)
+        worst = max(worst, err)
+        checked += 1
+        if err > 1e-7:
+            chk.engine_error('cross-check %s.%s at theta=%r u=%r v=%r: the executor\'s term gives %r, CPython gives %r'
+                             % (fam, method, th, u, v, cands, got))
+            break
+    chk.crosschecks = getattr(chk, 'crosschecks', [])
+    chk.crosschecks.append({'function': '%s.%s' % (FAMILIES[fam]['cls'], method), 'points': checked, 'skipped': skipped,
+                            'max_relative_error': worst})
+    if checked == 0:
+        chk.engine_error('cross-check %s.%s: no point could be compared' % (fam, method))
